@@ -14,6 +14,12 @@ from ..lockernel import blocks_of, is_empty_obj, run, strand_of, strands
 from .c05 import GENOME, _report, _runner, bases
 from .c07 import consistent_frames
 
+def _stable(x):
+    # process-independent selector (the builtin hash of strings changes from run to run)
+    import zlib
+    return zlib.crc32(repr(x).encode())
+
+
 EXPLANATION = (
     "GeneInterval, FeatureIntervalCollection and AnnotationCollection are built inside the analyser's interpreter from "
     "generated child sets (1-3 transcripts / features; both strands mixed; coding and non-coding; primary flag on none, "
@@ -385,7 +391,7 @@ def rk_feature_collections(ctx):
 
 def rk_annotation(ctx):
     names = ["g0", "g2", "g3", "f0", "f2", "g4"]
-    specs = [(p,) for p in itertools.permutations(names, 4) if hash(p) % (3 if not ctx.thorough else 1) == 0][:120]
+    specs = [(p,) for p in itertools.permutations(names, 4) if _stable(p) % (3 if not ctx.thorough else 1) == 0][:120]
     specs += [(tuple(names),), (tuple(reversed(names)),)]
     from ..par import pmap
     results = pmap(_runner(ctx.repo, _ac_case), specs)
